@@ -7,7 +7,7 @@ from typing import Dict, List, Optional, Set, Tuple
 from ..ctx import Ctx
 from ..model import AnalysisError, Mod, norm, walk_scope, calls_in
 from ..util import broad_handlers, contains, enclosing_tries, equivalent, in_body
-from .opcodes import guards_of
+from .opcodes import guards_of, nguards
 
 FORMATTERS = ["Stack._format", "Frame._format", "Context._format"]
 
@@ -301,6 +301,10 @@ def fmt4(ctx: Ctx) -> None:
         fn = mod.fn(q)
         ctx.R.saw(mod, q)
         cand = [s for s in ast.walk(fn) if isinstance(s, ast.If) and "is_exiting" in norm(s.test)]
+        if len(cand) != 1:
+            # find it by what it guards: the frame's own code line / own summary entry
+            cand = [s for s in fn.body if isinstance(s, ast.If) and "self.contexts" in norm(s.test)
+                    and any(("start_code" in norm(x) or "self.as_stdlib_summary(" in norm(x)) for x in s.body)]
         if len(cand) != 1:
             raise AnalysisError(f"FMT-4: {q}: omission test not found")
         tests.append((q, cand[0]))
@@ -666,6 +670,129 @@ def ref1(ctx: Ctx) -> None:
         ctx.R.fail("REF-1", mod, fn, "the referent scan must start from the frame on 3.9/3.10 and from the owning generator/coroutine/async generator on 3.11/3.12", construct="referents root selection")
 
 
-C18 = [fmt1, fmt2, fmt3, fmt5, fmt7]
-C19 = [fmt2, fmt4, fmt6, fmt8, fmt9]
+def fmt10_11(ctx: Ctx) -> None:
+    """FMT-10 the first line of a sub-component gets the start marker, the following ones the continuation marker;
+    FMT-11 leaf and error are rendered iff present (tree and flat format)"""
+    mod = ctx.P.mod("_types")
+    n = 0
+    for q in FORMATTERS:
+        fn = mod.fn(q)
+        for e in ast.walk(fn):
+            test = a = b = None
+            if isinstance(e, ast.IfExp) and isinstance(e.body, ast.Name) and isinstance(e.orelse, ast.Name):
+                test, a, b = e.test, e.body.id, e.orelse.id
+            if test is None or "idx" not in norm(test):
+                continue
+            n += 1
+            t = norm(test)
+            first_is_body = t in ("idx == 0", "not idx", "0 == idx")
+            first_is_else = t in ("idx != 0", "idx", "idx > 0", "idx >= 1")
+            if not (first_is_body or first_is_else):
+                ctx.R.undecided("FMT-10", f"{q}: marker choice `{norm(e)}` not understood")
+                continue
+            first, rest = (a, b) if first_is_body else (b, a)
+            if first.startswith("start_") and rest.startswith("continue_"):
+                ctx.R.ok("FMT-10", f"{q}: first line {first}, following lines {rest}")
+            elif first.startswith("continue_") and rest.startswith("start_"):
+                ctx.R.fail("FMT-10", mod, e, f"{q}: the first line of a sub-component gets the continuation marker `{first}` and the following lines the start marker `{rest}`: "
+                           "every component then reads as a continuation of the previous one followed by new components", construct=f"{q}: {norm(e)}")
+            else:
+                ctx.R.undecided("FMT-10", f"{q}: marker names `{first}` / `{rest}` not recognised")
+        # if idx == 0: lines.append(start_X + line) elif ...: ... else: lines.append(continue_X + line)
+        for st in ast.walk(fn):
+            if isinstance(st, ast.If) and norm(st.test) in ("idx == 0", "not idx") and st.body and isinstance(st.body[0], ast.Expr):
+                n += 1
+                tb = norm(st.body[0])
+                if "start_" in tb and "continue_" not in tb:
+                    ctx.R.ok("FMT-10", f"{q}: idx == 0 -> {tb[:50]}")
+                elif "continue_" in tb:
+                    ctx.R.fail("FMT-10", mod, st, f"{q}: the first line of a context gets a continuation marker", construct=f"{q}: idx == 0 -> {tb[:60]}")
+            elif isinstance(st, ast.If) and norm(st.test) in ("idx != 0", "idx") and st.body and isinstance(st.body[0], ast.Expr) and "start_context +" in norm(st.body[0]):
+                ctx.R.fail("FMT-10", mod, st, f"{q}: a continuation line of a context gets the start marker", construct=f"{q}: idx != 0 -> start marker")
+    if n < 3:
+        ctx.R.undecided("FMT-10", f"only {n} marker choices by line index found")
+    # FMT-11
+    for q, leaf_mark in (("Stack._format", "start_leaf"), ("Stack.format_flat", "Target of innermost frame")):
+        fn = mod.fn(q)
+        for what, attr, needle in (("leaf", "self.leaf", leaf_mark), ("error", "self.error", "self._format_error()")):
+            sites = [st for st in ast.walk(fn) if isinstance(st, ast.Expr) and isinstance(st.value, ast.Call) and norm(st.value.func) in ("lines.append", "lines.extend") and needle in norm(st)]
+            if not sites:
+                ctx.R.fail("FMT-11", mod, fn, f"{q} never renders the {what}: it cannot be recovered from the text", construct=f"{q}: {what} line missing")
+                continue
+            gs = guards_of(mod, sites[0], fn)
+            atom = f"{attr} is None"
+            from ..util import Atomizer
+            if len(gs) == 1:
+                try:
+                    ok, cex = equivalent(gs[0][0] if gs[0][1] else ast.UnaryOp(op=ast.Not(), operand=gs[0][0]), lambda e_: not e_[atom], [atom])
+                except AnalysisError as ex:
+                    ctx.R.undecided("FMT-11", f"{q}: guard of the {what} line not understood")
+                    continue
+                if ok:
+                    ctx.R.ok("FMT-11", f"{q}: {what} rendered iff {attr} is not None")
+                else:
+                    ctx.R.fail("FMT-11", mod, sites[0], f"{q}: the {what} must be rendered exactly when {attr} is not None; counterexample {cex}", construct=f"{q}: {what} guard")
+            else:
+                ctx.R.undecided("FMT-11", f"{q}: {what} line is under {len(gs)} guards")
+    fe = mod.fn("Stack._format_error")
+    ys = [y for y in ast.walk(fe) if isinstance(y, ast.Yield) and y.value is not None]
+    if len(ys) >= 2 and any("subline" in norm(y.value) or "line" in norm(y.value) for y in ys[1:]):
+        ctx.R.ok("FMT-11", "_format_error yields a heading and every line of the formatted exception")
+    elif len(ys) < 2:
+        ctx.R.fail("FMT-11", mod, fe, "_format_error no longer yields the lines of the formatted exception: the error's text is lost", construct="_format_error yields")
+    else:
+        ctx.R.undecided("FMT-11", "_format_error yields not understood")
+
+
+def fmt12(ctx: Ctx) -> None:
+    """FMT-12 Stack._frame_summaries yields an entry (or the with-contexts series) for every visible frame in both modes;
+    locals are captured iff requested; documented defaults"""
+    mod = ctx.P.mod("_types")
+    fn = mod.fn("Stack._frame_summaries")
+    loops = [l for l in fn.body if isinstance(l, ast.For) and norm(l.iter) == "self.frames"]
+    if len(loops) != 1:
+        ctx.R.undecided("FMT-12", "loop over self.frames not found")
+    else:
+        g = ctx.cfg(fn)
+        ynodes = {g.node_of(_stmt(mod, y)).idx for y in ast.walk(loops[0]) if isinstance(y, (ast.Yield, ast.YieldFrom))}
+        skips = [g.node_of(c).idx for c in ast.walk(loops[0]) if isinstance(c, ast.Continue) and any("hide" in norm(gx) for gx, pol in guards_of(mod, c, fn))]
+        header = g.node_of(loops[0])
+        first = g.node_of(loops[0].body[0])
+        if ynodes and g.all_paths_pass(first, {header.idx}, ynodes | set(skips)) or first.idx in ynodes:
+            ctx.R.ok("FMT-12", "every visible frame yields its summary entry (both with and without contexts)")
+        else:
+            ctx.R.fail("FMT-12", mod, loops[0], "a visible frame can pass through Stack._frame_summaries without yielding any entry (one of the show_contexts modes yields nothing)",
+                       construct="Stack._frame_summaries: path without yield")
+    for q in ("Frame.as_stdlib_summary", "Context._frame_summaries"):
+        f2 = mod.fn(q)
+        builds = [a for a in ast.walk(f2) if isinstance(a, ast.Assign) and norm(a.targets[0]) == "save_locals" and isinstance(a.value, (ast.Dict, ast.DictComp))]
+        for b in builds:
+            gs = nguards(mod, b, f2)
+            if ("capture_locals", True) in gs:
+                ctx.R.ok("FMT-12", f"{q}: locals captured only when capture_locals")
+            elif ("capture_locals", False) in gs:
+                ctx.R.fail("FMT-12", mod, b, f"{q}: locals are captured exactly when capture_locals is False", construct=f"{q}: capture_locals inverted")
+            else:
+                ctx.R.undecided("FMT-12", f"{q}: guard of the locals capture not understood")
+    want = {"Stack.as_stdlib_summary": {"show_contexts": "False", "show_hidden_frames": "False", "capture_locals": "False"},
+            "Stack.format_flat": {"show_contexts": "False"},
+            "Frame.as_stdlib_summary": {"capture_locals": "False"},
+            "Frame.as_stdlib_summary_with_contexts": {"show_hidden_frames": "False", "capture_locals": "False"}}
+    for q, w in want.items():
+        f2 = mod.fn(q)
+        d = {a.arg: norm(v) for a, v in zip(f2.args.kwonlyargs, f2.args.kw_defaults) if v is not None}
+        if d == w:
+            ctx.R.ok("FMT-12", f"{q}: documented defaults {w}")
+        else:
+            ctx.R.fail("FMT-12", mod, f2, f"{q}: documented defaults are {w}, found {d}", construct=f"{q} defaults {d}")
+
+
+def _stmt(mod: Mod, n: ast.AST) -> ast.AST:
+    while not isinstance(n, ast.stmt):
+        n = mod.parent_of(n)
+    return n
+
+
+C18 = [fmt1, fmt2, fmt3, fmt5, fmt7, fmt10_11]
+C19 = [fmt2, fmt4, fmt6, fmt8, fmt9, fmt12]
 C20 = [cont7, mode_rules, ref1]
